@@ -98,6 +98,23 @@ func vFmtMatches(ms stringclassifier.Matches) string {
 	return strings.Join(s, " ")
 }
 
+// vLetterDamage changes one letter in every k-th word: few intact word chunks, yet a
+// high edit-distance similarity.
+func vLetterDamage(r *rand.Rand, s string, k int) string {
+	w := strings.Fields(s)
+	for i := k - 1; i < len(w); i += k {
+		b := []byte(w[i])
+		for j := range b {
+			if b[j] >= 'a' && b[j] <= 'z' {
+				b[j] = 'a' + (b[j]-'a'+1)%26
+				break
+			}
+		}
+		w[i] = string(b)
+	}
+	return strings.Join(w, " ")
+}
+
 func vEditText(r *rand.Rand, s string, rate float64) string {
 	w := strings.Fields(s)
 	for i := range w {
@@ -199,7 +216,7 @@ func TestVerifC15(t *testing.T) {
 				}
 				// differential queries built from this license
 				small := len(norms[key]) <= 4000
-				queries := []string{"preface words here\n" + string(raw) + "\ntrailer words", vEditText(r, string(raw), 0.03)}
+				queries := []string{"preface words here\n" + string(raw) + "\ntrailer words", vEditText(r, string(raw), 0.03), vLetterDamage(r, string(raw), 3+r.Intn(3))}
 				if len(d.Names) > 1 {
 					o, _ := ReadLicenseFile(d.Names[r.Intn(len(d.Names))])
 					if len(o) < 6000 {
